@@ -172,7 +172,22 @@ impl Compiler {
     }
 
     /// Compiles the given AST into executable Bytecode
+    /// If compilation fails, everything the failed program left half-finished is discarded,
+    /// so the compiler can be used again (eg. for the next line of an interactive session).
     pub fn compile_ast(&mut self, ast: &BlockStmt) -> Result<Bytecode, Error> {
+        match self.compile_program(ast) {
+            Ok(code) => Ok(code),
+            Err(e) => {
+                self.instructions.clear();
+                self.last_instruction = None;
+                self.loop_contexts.clear();
+                self.symbols.reset_to_global();
+                Err(e)
+            }
+        }
+    }
+
+    fn compile_program(&mut self, ast: &BlockStmt) -> Result<Bytecode, Error> {
         // Call compile_statement on each child node directly
         // We don't re-use compile_block_statement here because it exits the global scope
         for s in ast {
